@@ -9,10 +9,13 @@
   PROVED HERE: the meaning of the oracle (`C03_ttValid_iff`: `ttValid` is true exactly when no
   assignment of the logic's values is a counterexample — the enumeration is complete), and the
   "only if" half of (2) for EVERY legal derivation (`C03_closed_implies_ttValid`, from C01).
-  The "if" half (a saturated open branch yields a falsifying assignment) is C02's Hintikka lemma;
-  (1) needs the per-logic weight measure — both are not proved yet, hence `_partial` below; they are
-  covered by the correspondence (exhaustive small + random propositional arguments: verdict =
-  `ttValid`, no quit flag, not premature).
+  The "if" half is `C03_ttValid_implies_closed_partial` (from C02's Hintikka lemma: a truth-table-valid
+  argument has no SATURATED ground open branch in any reachable tableau — `_partial`: saturation of the
+  finished tableau is the search layer's theorem, Ptx/Props/Search.lean); (1) is
+  `C03_terminates_partial` (per-logic weight measure; `_partial`: for derivations that never re-apply
+  a rule to a ticked node, which every run of the search model is: `search_run_replayFresh`).
+  Both are also covered by the correspondence (exhaustive small + random + shape-directed
+  propositional arguments: verdict = `ttValid`, no quit flag, not premature, not over the world limit).
 -/
 import Ptx.Proofs.TruthTable
 import Ptx.Proofs.Terminate
